@@ -4,7 +4,7 @@
    within +-2^53; see props/C08.json "partial"). *)
 From Coq Require Import List ZArith Bool.
 Import ListNotations.
-From GMS Require Import Expr.C08Agg Expr.C08AggProofs.
+From GMS Require Import Expr.C08Agg Expr.C08AggProofs Expr.C08RangeProofs Expr.C08RankProofs Expr.C08NtileProofs.
 Open Scope Z_scope.
 
 (* --- aggregation buffers: for EVERY input list the fold equals the definition over the non-NULL values;
@@ -95,19 +95,64 @@ Theorem C08_window_min_frame_before_buffer_refuted :
 Proof. exact win_min_frame_before_buffer_refuted. Qed.
 Print Assumptions C08_window_min_frame_before_buffer_refuted.
 
-(* --- ranks (bounded): for every nondecreasing key list of up to 11 rows, given by its tie pattern, and partition
-       starts 0 and 3: RANK = 1 + #rows with a smaller key, DENSE_RANK = 1 + #distinct smaller keys.
-       Partial: the unbounded statement (all lengths) is not proved. --- *)
-Theorem C08_rank_dense_rank_bounded_partial : forall bs, (length bs <= 10)%nat -> ranks_ok (keys_of_pattern 0 bs) = true.
-Proof. exact ranks_bounded. Qed.
-Print Assumptions C08_rank_dense_rank_bounded_partial.
+(* --- window MAX / MIN / FIRST_VALUE / LAST_VALUE / AVG over any ROWS frame [ps+a, ps+b) inside the partition --- *)
+Theorem C08_window_max_min_spec : forall buf ps pe (a b : nat), 0 <= ps -> (a <= b <= length (slice buf ps pe))%nat ->
+  win_agg FMax buf ps pe (ps + Z.of_nat a) (ps + Z.of_nat b) = of_v (spec_max (frame_rows buf ps pe a b)) /\
+  win_agg FMin buf ps pe (ps + Z.of_nat a) (ps + Z.of_nat b) = of_v (spec_min (frame_rows buf ps pe a b)).
+Proof. exact (fun buf ps pe a b H0 H => conj (win_max_spec buf ps pe a b H0 H) (win_min_spec buf ps pe a b H0 H)). Qed.
+Print Assumptions C08_window_max_min_spec.
 
-(* --- NTILE (bounded): for every partition of up to 40 rows and 1..45 buckets the state machine yields the closed
-       form: the first (c mod b) buckets hold c/b+1 rows, the rest c/b; more buckets than rows: one row each.
-       Partial: the unbounded statement is not proved. --- *)
-Theorem C08_ntile_bounded_partial : forall c b, (c <= 40)%nat -> (1 <= b <= 45)%nat -> ntile_ok c b = true.
-Proof. exact ntile_bounded. Qed.
-Print Assumptions C08_ntile_bounded_partial.
+Theorem C08_window_first_last_value_spec : forall buf ps pe (a b : nat), 0 <= ps -> (a <= b <= length (slice buf ps pe))%nat ->
+  win_agg FFirst buf ps pe (ps + Z.of_nat a) (ps + Z.of_nat b)
+    = (if (a <? b)%nat then of_v (hd None (frame_rows buf ps pe a b)) else WNull) /\
+  win_agg FLast buf ps pe (ps + Z.of_nat a) (ps + Z.of_nat b)
+    = (if (a <? b)%nat then of_v (last (frame_rows buf ps pe a b) None) else WNull).
+Proof. exact win_first_last_spec. Qed.
+Print Assumptions C08_window_first_last_value_spec.
+
+(* AVG = sum / count of the non-NULL values whenever the frame holds one (otherwise: the NaN refutation above) *)
+Theorem C08_window_avg_guarded : forall buf ps pe (a b : nat), (a <= b <= length (slice buf ps pe))%nat ->
+  nonnull (frame_rows buf ps pe a b) <> [] ->
+  win_agg FAvg buf ps pe (ps + Z.of_nat a) (ps + Z.of_nat b)
+  = WQ (zsum (nonnull (frame_rows buf ps pe a b))) (Z.of_nat (length (nonnull (frame_rows buf ps pe a b)))).
+Proof. exact win_avg_guarded. Qed.
+Print Assumptions C08_window_avg_guarded.
+
+(* --- RANGE frames: for every ascending integer key list and all bounds/offsets, the sliding search of
+       rangeFramerBase.Next gives row i exactly the rows whose key lies in [k_i + lo, k_i + hi], peers included --- *)
+Theorem C08_range_frame_spec : forall sb eb keys, zsorted keys -> forall i, (i < length keys)%nat ->
+  let '(s, e) := nth i (range_frames sb eb keys) (O, O) in
+  forall j, (j < length keys)%nat ->
+    ((s <= j < e)%nat <->
+     (is_unbp sb = true \/ key_at keys i + off sb <= key_at keys j) /\
+     (is_unbf eb = true \/ key_at keys j <= key_at keys i + off eb)).
+Proof. exact range_frame_spec. Qed.
+Print Assumptions C08_range_frame_spec.
+
+(* the sort direction is never consulted: over a descending key list the frame of the last row (key 0) under
+   CURRENT ROW .. UNBOUNDED FOLLOWING contains the first row (key 5) *)
+Theorem C08_range_frame_desc_refuted :
+  exists keys i j, let '(s, e) := nth i (range_frames Cur UnbF keys) (O, O) in
+    keys = [5; 2; 1; 1; 0] /\ i = 4%nat /\ j = 0%nat /\ (s <= j < e)%nat.
+Proof. exact range_desc_refuted. Qed.
+Print Assumptions C08_range_frame_desc_refuted.
+
+(* --- ranks, for every partition: the look-ahead peer-group framer is the streaming definition ... --- *)
+Theorem C08_ranks_streaming : forall ps k0 t, 0 <= ps -> ranks ps (k0 :: t) = (1, 1) :: sr 1 1 1 k0 t.
+Proof. exact ranks_stream. Qed.
+Print Assumptions C08_ranks_streaming.
+
+(* ... and over sorted keys (NULL first) RANK = 1 + #{j | key j < key i}, DENSE_RANK = 1 + #distinct smaller keys *)
+Theorem C08_rank_dense_rank_spec : forall ps keys, 0 <= ps -> vsorted keys ->
+  ranks ps keys = map (fun k => (1 + cnt_lt keys k, 1 + dcnt_lt keys k)) keys.
+Proof. exact ranks_spec. Qed.
+Print Assumptions C08_rank_dense_rank_spec.
+
+(* --- NTILE, for every partition size c and every b >= 1: the closed form (the first c mod b buckets hold c/b + 1
+       rows, the others c/b; more buckets than rows: one row each), so sizes differ by at most 1, larger first --- *)
+Theorem C08_ntile_spec : forall count b, 1 <= b -> ntile count b = map (ntile_spec count b) (seq 0 count).
+Proof. exact ntile_spec_all. Qed.
+Print Assumptions C08_ntile_spec.
 
 (* --- LAG / LEAD: a shifted lookup inside the partition, else the default --- *)
 Theorem C08_lead_lag_spec : forall buf ps pe pos offset def,
